@@ -7,6 +7,41 @@ import PvProofs.Lemmas.SancInv
 namespace PvProofs.Sanc
 open PvModel PvModel.Sanc PvModel.Sanc.Spec
 
+/-- every coin of a (merged) deposit record is non-negative -/
+def EntriesNonneg (cs : Coins) : Prop := ∀ c ∈ cs, 0 ≤ c.2
+
+theorem entriesNonneg_of_allPos {cs : Coins} (h : allPos cs = true) : EntriesNonneg cs := by
+  intro c hc
+  simp only [allPos, List.all_eq_true, decide_eq_true_eq] at h
+  exact Int.le_of_lt (h c hc)
+
+theorem addCoin_nonneg {d : Denom} {x : Int} (hx : 0 ≤ x) {cs : Coins} (h : EntriesNonneg cs) :
+    EntriesNonneg (addCoin d x cs) := by
+  induction cs with
+  | nil => intro c hc; simp [addCoin] at hc; subst hc; exact hx
+  | cons y rest ih =>
+    obtain ⟨d', v⟩ := y
+    have hv : 0 ≤ v := h (d', v) List.mem_cons_self
+    have hr : EntriesNonneg rest := fun c hc => h c (List.mem_cons_of_mem _ hc)
+    intro c hc
+    simp only [addCoin] at hc
+    split_ifs at hc
+    · rcases List.mem_cons.1 hc with rfl | hc
+      · show 0 ≤ v + x; omega
+      · exact hr c hc
+    · rcases List.mem_cons.1 hc with rfl | hc
+      · exact hv
+      · exact ih hr c hc
+
+theorem mergeCoins_nonneg {b : Coins} (hb : EntriesNonneg b) {a : Coins} (ha : EntriesNonneg a) :
+    EntriesNonneg (mergeCoins a b) := by
+  induction b generalizing a with
+  | nil => exact ha
+  | cons y rest ih =>
+    obtain ⟨d, x⟩ := y
+    simp only [mergeCoins]
+    exact ih (fun c hc => hb c (List.mem_cons_of_mem _ hc)) (addCoin_nonneg (hb (d, x) List.mem_cons_self) ha)
+
 /-- What every reachable state satisfies. -/
 structure Inv (s : State) : Prop where
   store : StoreOK s.cfg s.st
@@ -15,7 +50,7 @@ structure Inv (s : State) : Prop where
   msgsOk : ∀ p ∈ s.props, ∀ m ∈ p.msgs, ∀ a ∈ m.addrs, a ≠ ""
   live : ∀ e ∈ s.st.temp, LiveIn s.props s.cancelled e
   cancelledOk : ∀ id ∈ s.cancelled, id < s.nextId ∧ ∀ p ∈ s.props, p.id ≠ id
-  depositsNonneg : ∀ p ∈ s.props, ∀ x ∈ p.deposits, 0 ≤ x.2
+  depositsNonneg : ∀ p ∈ s.props, ∀ x ∈ p.deposits, EntriesNonneg x.2
 
 theorem inv_init (c : Cfg) : Inv (init c) where
   store := storeOK_init c
@@ -38,14 +73,14 @@ theorem sendCoins_ok {s s' : State} {f t : Addr} {amt : Coins} (h : sendCoins s 
   simp only [Except.ok.injEq] at h
   exact ⟨h.symm, by simpa using h2⟩
 
-theorem refundAll_ok {ds : List (Addr × Int)} {s s' : State} (h : refundAll s ds = .ok s') :
+theorem refundAll_ok {ds : List (Addr × Coins)} {s s' : State} (h : refundAll s ds = .ok s') :
     ∃ l, s' = { s with ledger := l } := by
   induction ds generalizing s with
   | nil => simp only [refundAll, Except.ok.injEq] at h; exact ⟨s.ledger, h.symm⟩
   | cons x rest ih =>
     obtain ⟨d, a⟩ := x
     simp only [refundAll] at h
-    cases hs : sendCoins s s.cfg.govAcct d [(s.cfg.bond, a)] with
+    cases hs : sendCoins s s.cfg.govAcct d a with
     | error e => simp [hs] at h
     | ok s1 =>
       simp only [hs] at h
@@ -53,7 +88,7 @@ theorem refundAll_ok {ds : List (Addr × Int)} {s s' : State} (h : refundAll s d
       obtain ⟨h1, _⟩ := sendCoins_ok hs
       exact ⟨l, by rw [hl, h1]⟩
 
-theorem chargeDeposits_ok {ds : List (Addr × Int)} {s s' : State} {ch ch' : Int}
+theorem chargeDeposits_ok {ds : List (Addr × Coins)} {s s' : State} {ch ch' : Coins}
     (h : chargeDeposits s ch ds = .ok (s', ch')) : ∃ l, s' = { s with ledger := l } := by
   induction ds generalizing s ch with
   | nil =>
@@ -64,8 +99,7 @@ theorem chargeDeposits_ok {ds : List (Addr × Int)} {s s' : State} {ch ch' : Int
     simp only [chargeDeposits] at h
     split_ifs at h with h0
     · exact ih h
-    · cases hs : sendCoins s s.cfg.govAcct d
-          [(s.cfg.bond, a - a * (s.cfg.cancelNum : Int) / (s.cfg.cancelDen : Int))] with
+    · cases hs : sendCoins s s.cfg.govAcct d (remainingPart s.cfg a) with
       | error e => simp [hs] at h
       | ok s1 =>
         simp only [hs] at h
@@ -73,7 +107,7 @@ theorem chargeDeposits_ok {ds : List (Addr × Int)} {s s' : State} {ch ch' : Int
         obtain ⟨h1, _⟩ := sendCoins_ok hs
         exact ⟨l, by rw [hl, h1]⟩
 
-theorem settle_ok {s s' : State} {burn : Bool} {ds : List (Addr × Int)} (h : settle s burn ds = .ok s') :
+theorem settle_ok {s s' : State} {burn : Bool} {ds : List (Addr × Coins)} (h : settle s burn ds = .ok s') :
     ∃ l, s' = { s with ledger := l } := by
   unfold settle at h
   split_ifs at h
@@ -83,24 +117,28 @@ theorem settle_ok {s s' : State} {burn : Bool} {ds : List (Addr × Int)} (h : se
 
 /-! ### proposals after a deposit / after the tally -/
 
-theorem addDep_nonneg {ds : List (Addr × Int)} {who : Addr} {a : Int} (ha : 0 ≤ a)
-    (h : ∀ x ∈ ds, 0 ≤ x.2) : ∀ x ∈ addDep ds who a, 0 ≤ x.2 := by
+theorem addDep_nonneg {ds : List (Addr × Coins)} {who : Addr} {a : Coins} (ha : EntriesNonneg a)
+    (h : ∀ x ∈ ds, EntriesNonneg x.2) : ∀ x ∈ addDep ds who a, EntriesNonneg x.2 := by
   induction ds with
-  | nil => intro x hx; simp [addDep] at hx; subst hx; exact ha
+  | nil =>
+    intro x hx
+    simp [addDep] at hx
+    subst hx
+    exact mergeCoins_nonneg ha (fun c hc => by cases hc)
   | cons y rest ih =>
     obtain ⟨w, v⟩ := y
     intro x hx
     simp only [addDep] at hx
-    have hv : 0 ≤ v := h (w, v) List.mem_cons_self
+    have hv : EntriesNonneg v := h (w, v) List.mem_cons_self
     split_ifs at hx
     · rcases List.mem_cons.1 hx with rfl | hx
-      · show 0 ≤ v + a; omega
+      · exact mergeCoins_nonneg ha hv
       · exact h x (List.mem_cons_of_mem _ hx)
     · rcases List.mem_cons.1 hx with rfl | hx
       · exact hv
       · exact ih (fun z hz => h z (List.mem_cons_of_mem _ hz)) x hx
 
-theorem depositedProp_spec (c : Cfg) (now : Nat) (p : Proposal) (who : Addr) (a : Int) :
+theorem depositedProp_spec (c : Cfg) (now : Nat) (p : Proposal) (who : Addr) (a : Coins) :
     (depositedProp c now p who a).id = p.id ∧ (depositedProp c now p who a).msgs = p.msgs ∧
       (p.active = true → (depositedProp c now p who a).active = true) ∧
       (depositedProp c now p who a).deposits = addDep p.deposits who a := by
@@ -146,7 +184,7 @@ theorem tallyOutcome_spec {c : Cfg} {st : Store} (p : Proposal) (passes : Bool) 
 /-! ### gov functions keep the invariant -/
 
 theorem addDeposit_inv {s s' : State} {id : Nat} {who : Addr} {amt : Coins} (h : Inv s)
-    (hs : addDeposit s id who amt = .ok s') : Inv s' ∧ s'.cfg = s.cfg ∧ s'.cancelled = s.cancelled := by
+    (hpos : allPos amt = true) (hs : addDeposit s id who amt = .ok s') : Inv s' ∧ s'.cfg = s.cfg ∧ s'.cancelled = s.cancelled := by
   unfold addDeposit at hs
   cases hg : getProp s.props id with
   | none => simp [hg] at hs
@@ -162,12 +200,8 @@ theorem addDeposit_inv {s s' : State} {id : Nat} {who : Addr} {amt : Coins} (h :
       simp only at hs
       obtain ⟨hp, hpid⟩ := getProp_some hg
       have hact : p.active = true := by simpa using h1
-      have ha : 0 < Coins.amountOf amt s.cfg.bond := by
-        by_cases h0 : 0 < Coins.amountOf amt s.cfg.bond
-        · exact h0
-        · simp [h0] at h3
-      obtain ⟨d1, d2, d3, d4⟩ := depositedProp_spec s.cfg s.now p who (Coins.amountOf amt s.cfg.bond)
-      generalize depositedProp s.cfg s.now p who (Coins.amountOf amt s.cfg.bond) = p2 at hs d1 d2 d3 d4
+      obtain ⟨d1, d2, d3, d4⟩ := depositedProp_spec s.cfg s.now p who amt
+      generalize depositedProp s.cfg s.now p who amt = p2 at hs d1 d2 d3 d4
       cases hh : proposalGovHook s.cfg s.st (some p2) id with
       | error e => simp [hh] at hs
       | ok st =>
@@ -200,7 +234,7 @@ theorem addDeposit_inv {s s' : State} {id : Nat} {who : Addr} {amt : Coins} (h :
           · exact (h.cancelledOk i hi).2 q hq
         · intro q hq
           rcases mem_setProp hq with rfl | ⟨hq, _⟩
-          · rw [d4]; exact addDep_nonneg (Int.le_of_lt ha) (h.depositsNonneg p hp)
+          · rw [d4]; exact addDep_nonneg (entriesNonneg_of_allPos hpos) (h.depositsNonneg p hp)
           · exact h.depositsNonneg q hq
 
 theorem validateMsgs_ok {msgs : List PMsg} (h : validateMsgs msgs = .ok ()) :
@@ -274,7 +308,11 @@ theorem submitProposal_inv {s s' : State} {who : Addr} {msgs : List PMsg} {initi
           rcases List.mem_append.1 hq with hq | hq
           · exact h.depositsNonneg q hq
           · simp only [List.mem_singleton] at hq; rw [hq, hdep]; intro x hx; cases hx
-      have := addDeposit_inv hmid hs
+      have hpos : allPos initial = true := by
+        have : coinsValid initial = true := by simpa using h1
+        simp only [coinsValid, Bool.and_eq_true] at this
+        exact this.1
+      have := addDeposit_inv hmid hpos hs
       exact this
 
 theorem addVote_inv {s s' : State} {id : Nat} {v : Vote} (h : Inv s) (hs : addVote s id v = .ok s') :
@@ -322,7 +360,7 @@ theorem cancelProposal_ok {s s' : State} {who : Addr} {id : Nat} (hs : cancelPro
   | some p =>
     simp only [hg] at hs
     split_ifs at hs with h1 h2 h3
-    cases hc : chargeDeposits s 0 p.deposits with
+    cases hc : chargeDeposits s [] p.deposits with
     | error e => simp [hc] at hs
     | ok r =>
       obtain ⟨s1, ch⟩ := r
@@ -330,7 +368,7 @@ theorem cancelProposal_ok {s s' : State} {who : Addr} {id : Nat} (hs : cancelPro
       obtain ⟨l, hl⟩ := chargeDeposits_ok hc
       subst hl
       refine ⟨p, ?_, rfl, by simpa using h2, ?_⟩
-      · exact (if ch = 0 then ({ s with ledger := l } : State) else burnFromGov { s with ledger := l } ch).ledger
+      · exact (if Coins.isZero ch then ({ s with ledger := l } : State) else burnFromGov { s with ledger := l } ch).ledger
       · rw [← hs]
         split_ifs <;> rfl
 
@@ -377,7 +415,7 @@ theorem expireOne_inv {s s' : State} {id : Nat} (h : Inv s) (hs : expireOne s id
 theorem active_of_status {p q : Proposal} (h : q.status = p.status) : q.active = p.active := by
   unfold Proposal.active; rw [h]
 
-theorem hookMsgs_error {c : Cfg} {total : Int} {id : Nat} {msgs : List PMsg} {st : Store} {e : Err}
+theorem hookMsgs_error {c : Cfg} {total : Coins} {id : Nat} {msgs : List PMsg} {st : Store} {e : Err}
     (h : hookMsgs c total id st msgs = .error e) : e = .panic := by
   induction msgs generalizing st with
   | nil => simp [hookMsgs] at h
@@ -389,7 +427,6 @@ theorem hookMsgs_error {c : Cfg} {total : Int} {id : Nat} {msgs : List PMsg} {st
       simp only [hm, Except.error.injEq] at h
       subst h
       unfold hookMsg at hm
-      simp only at hm
       cases ha : addTempEntries c m.isSanction id st m.addrs <;> rw [ha] at hm <;>
         split_ifs at hm <;> simp_all
 
